@@ -912,15 +912,12 @@ func (c *control) getEFGarg(ff *floatFormatter) {
 	// support long-float other that as a double-float.
 	switch ta := arg.(type) {
 	case slip.Fixnum:
-		if ff.neg = ta < 0; ff.neg {
-			ta = -ta
-		}
-		ff.digits = fmt.Appendf(nil, "%d", ta)
+		ff.neg = ta < 0
+		ff.digits = strconv.AppendUint(nil, magnitude(ta), 10)
 	case *slip.Bignum:
 		num := (*big.Int)(ta)
 		ff.neg = num.Sign() < 0
-		num = num.Abs(num)
-		ff.digits = num.Append(nil, 10)
+		ff.digits = new(big.Int).Abs(num).Append(nil, 10)
 	case slip.Real:
 		num := ta.RealValue()
 		if ff.neg = num < 0.0; ff.neg {
